@@ -11,20 +11,28 @@ INSTR = {"files": {"stream.go": {"funcs": ["Stream.fillDataToReadBuffer", "Strea
 # "flag read / data added" orderings inside fillDataToReadBuffer and the goroutine's exit re-check can be separated
 INSTR_FINE = {"files": {"stream.go": {"funcs": INSTR["files"]["stream.go"]["funcs"] + ["pendingData.add", "pendingData.moveTo", "pendingData.clear"]},
                         "buffer_manager.go": INSTR["files"]["buffer_manager.go"]}}
+# statement-granular instrumentation of the stream layer's buffer bookkeeping: these sections rely on locks only (no
+# atomics), so their interleavings (Close/clean against the event loop's delivery, moveTo against add) need a scheduling
+# point in front of every statement
+INSTR_STMT = {"files": {"stream.go": {"funcs": INSTR["files"]["stream.go"]["funcs"], "everyStmt": ["pendingData.*", "Stream.clean"]},
+                        "buffer.go": {"everyStmt": ["linkedBuffer.recycle", "linkedBuffer.cleanPinnedList", "linkedBuffer.clean"], "addrLocks": ["recycleMux"]},
+                        "buffer_slice.go": {"everyStmt": ["sliceList.*"]},
+                        "buffer_manager.go": INSTR["files"]["buffer_manager.go"]}}
+INSTRS = {'fine': INSTR_FINE, 'stmt': INSTR_STMT}
 HARNESS = ['zz_vs_sched.go', 'zz_freelist_test.go', 'zz_pair_test.go', 'zz_session_test.go', 'zz_callback_test.go']
 SLUGS = ['peer-close-before-offer', 'close-during-callback']
-INVS = 'Serial NoDupOffer OrderOffer NoStranding PeerLearns CallbackOnce'
+INVS = 'Serial NoDupOffer OrderOffer NoStranding PeerLearns CallbackOnce CleanAlone'
 WITNESS = {
     # data followed by the peer's close in the same drain: the offering loop is gated by IsOpen()
     ('C20', 'peer-close-before-offer'): dict(events='ddc', user=False, inon=False, steps=[
-        'EData', 'EChk', 'ECas:1', 'EData', 'GMove:1', 'EChk', 'ECas', 'EClose', 'EHalf', 'GLoop:1', 'GClr:1', 'GLdCcs:1']),
+        'EData', 'EChk', 'ECas', 'ERechk:1', 'EData', 'GMove:1', 'EChk', 'ECas', 'EClose', 'EHalf', 'GLoop:1', 'GClr:1', 'GLdCcs:1']),
     # Close() from another goroutine while a callback is in process: deferred path, nobody tells the peer
     ('C10', 'close-during-callback'): dict(events='dd', user=True, inon=False, steps=[
-        'EData', 'EChk', 'ECas:1', 'EData', 'UStart', 'GMove:1', 'PubClose1:0', 'PubClose2:0', 'PubClose3:0', 'GLoop:1', 'URet',
+        'EData', 'EChk', 'ECas', 'ERechk:1', 'EData', 'UStart', 'GMove:1', 'PubClose1:0', 'PubClose2:0', 'PubClose3:0', 'GLoop:1', 'URet',
         'GClr:1', 'GLdCcs:1', 'CloseBegin:1', 'CloseCas:1', 'CloseWait:1', 'EChk', 'CloseClean:1', 'GClosingRet:1']),
     # Close() inside OnData
     ('C10', 'close-during-callback#ondata'): dict(events='d', user=False, inon=True, steps=[
-        'EData', 'EChk', 'ECas:1', 'GMove:1', 'GLoop:1']),
+        'EData', 'EChk', 'ECas', 'ERechk:1', 'GMove:1', 'GLoop:1']),
 }
 
 
@@ -44,7 +52,7 @@ def expect(st):
 def step_of(label, src, dst):
     m = re.match(r'(\w+)(?:\((\d+)\))?', label)
     st = {'a': m.group(1), 'c': int(m.group(2)) if m.group(2) else 0, 'g': 0}
-    if st['a'] == 'ECas':
+    if st['a'] in ('ECas', 'ERechk'):
         for g in (1, 2):
             if src['gpc'][g - 1] == 'none' and dst['gpc'][g - 1] == 'go':
                 st['g'] = g
@@ -56,7 +64,7 @@ def wit_steps(lst):
     for x in lst:
         a, _, c = x.partition(':')
         st = {'a': a, 'c': int(c) if c else 0, 'g': 0}
-        if a == 'ECas' and c:
+        if a in ('ECas', 'ERechk') and c:
             st = {'a': a, 'c': 0, 'g': int(c)}
         out.append(st)
     return out
@@ -75,7 +83,8 @@ def report(ck, prop, r):
         if v['property'] == prop:
             ck.violation('%s (%s, events=%s userClose=%s closeInOnData=%s): %s' % (v['kind'], v['schedule'], v['events'], v['userclose'], v['inondata'], v['detail']),
                          {'kind': 'schedule', 'events': v['events'], 'userclose': v['userclose'], 'inondata': v['inondata'],
-                          'fine': v['schedule'].startswith('random'),
+                          'fine': ('stmt' if v['schedule'].startswith('random/stmt') else 'fine') if v['schedule'].startswith('random') else False,
+                          'keeppinned': v.get('keeppinned', False),
                           'steps': [[s['a'], s['c'], s['g']] for s in v['steps']], 'detail': v['detail']})
         else:
             ck.notes.append("also saw a %s violation (%s: %s)" % (v['property'], v['kind'], v['detail'][:100]))
@@ -103,10 +112,11 @@ def run(prop, tier, seed, replay=None, ck=None, finish=True):
     if replay:
         rep = json.load(open(replay))
         job = {'schedules': [{'name': 'replay', 'events': rep['events'], 'userclose': rep['userclose'], 'inondata': rep['inondata'], 'raw': True,
+                              'keeppinned': rep.get('keeppinned', False),
                               'steps': [{'a': a, 'c': c, 'g': g} for a, c, g in rep['steps']]}], 'known': [], 'random': {'n': 0, 'seed': 1}}
         ck.cov['evaluations'] = 1
         ck.cov['distinct_nontrivial'] = 1
-        r = harness(ck, job, INSTR_FINE if rep.get('fine') else None)
+        r = harness(ck, job, INSTRS.get(rep.get('fine') if rep.get('fine') is not True else 'fine'))
         if r:
             report(ck, prop, r)
         return fin()
@@ -186,6 +196,16 @@ def run(prop, tier, seed, replay=None, ck=None, finish=True):
             report(ck, prop, fr)
             ck.cov['random_interleavings_fine_grained'] = fr['random_runs']
             ck.cov['random_fine_steps'] = fr['random_steps']
+    # random interleavings with a scheduling point in front of every statement of the buffer bookkeeping (oracles only)
+    if not ck.violations:
+        sjob = {'schedules': [], 'known': listed, 'random': {'n': 20000 if tier == 'quick' else 200000, 'seed': ck.seed + 2000, 'tag': '/stmt'}}
+        sr = harness(ck, sjob, INSTR_STMT)
+        if sr is not None:
+            report(ck, prop, sr)
+            ck.cov['random_interleavings_statement_granular'] = sr['random_runs']
+            ck.cov['random_statement_granular_steps'] = sr['random_steps']
+            ck.cov['statement_granular_points_executed'] = sr.get('points', {})
+            ck.add('callback_ledger_checks', sr.get('ledger_checks', 0))
     ck.add('traces_validated_against_impl', r['conforming'])
     ck.cov['replayed_behaviours'] = r['replayed']
     ck.cov['replay_steps'] = r['steps']
